@@ -171,17 +171,23 @@ func init() {
 			return nil, true
 		},
 		"vpRunTasks": func(e *Engine, fr *Frame, args []Value) (Value, bool) {
-			if len(e.st.tasks) > 0 {
-				e.runTask()
-				return nil, false // re-executed until no tasks are left
+			e.st.progress-- // polling for the others is not progress
+			if !e.yieldMain() {
+				return nil, false // re-executed when main is scheduled again
 			}
 			return nil, true
 		},
 		"vpPendingTasks": func(e *Engine, fr *Frame, args []Value) (Value, bool) {
-			return smt.BV(uint64(len(e.st.tasks)), 64), true
+			return smt.BV(uint64(e.unfinishedOthers()), 64), true
 		},
 		"vpDropTasks": func(e *Engine, fr *Frame, args []Value) (Value, bool) {
-			e.st.tasks = nil
+			var keep []*Gor
+			for _, g := range e.st.others {
+				if g.isMain {
+					keep = append(keep, g)
+				}
+			}
+			e.st.others = keep
 			return nil, true
 		},
 		"vpThread": func(e *Engine, fr *Frame, args []Value) (Value, bool) {
@@ -235,8 +241,30 @@ func init() {
 			return smt.ZExt(t, 64), true
 		},
 		"vpBlockForever": func(e *Engine, fr *Frame, args []Value) (Value, bool) {
-			e.blocked("goroutine parks forever (read on an open connection that never delivers)")
-			return nil, true
+			e.parkCurrent("goroutine parks forever (waits on something nobody will ever deliver)")
+			return nil, false
+		},
+		// vpWaitProgress: block until some other goroutine has made progress, then return (the caller
+		// re-checks its condition in a loop); parks forever if nobody else can run.
+		"vpWaitProgress": func(e *Engine, fr *Frame, args []Value) (Value, bool) {
+			st := e.st
+			if st.curGor.blockedOnce && st.progress > st.curGor.blockedAt {
+				st.curGor.blockedOnce = false
+				return nil, true
+			}
+			any := false
+			for _, g := range st.others {
+				if e.runnable(g) || (g.isMain && g.yielding) {
+					any = true
+				}
+			}
+			if !any {
+				e.parkCurrent("waits for an event that no goroutine can produce")
+				return nil, false
+			}
+			st.curGor.blockedOnce = true
+			e.blockCurrent("waiting for progress")
+			return nil, false
 		},
 		"vpParam": func(e *Engine, fr *Frame, args []Value) (Value, bool) {
 			name := e.strArg(args[0], "vpParam")
